@@ -285,7 +285,7 @@ fn main() {
     std::process::exit(0);
   }
   let plan: Vec<(&str, usize, usize)> = if args.thorough() {
-    vec![("javascript", 4, 4), ("typescript", 3, 3), ("tsx", 3, 3), ("python", 4, 3), ("rust", 4, 3), ("c", 4, 3), ("html", 3, 3), ("css", 3, 3)]
+    vec![("javascript", 4, 3), ("typescript", 3, 3), ("tsx", 3, 3), ("python", 3, 3), ("rust", 4, 3), ("c", 3, 3), ("html", 3, 3), ("css", 3, 3)]
   } else {
     vec![("javascript", 3, 3), ("python", 3, 3), ("rust", 3, 3)]
   };
